@@ -32,7 +32,7 @@ NSHARD = 32
 
 def plan(tier, seed):
     q = tier == "quick"
-    return [{"name": "s%d" % i, "i": i, "c": 10 if q else 300, "l": 60 if q else 2400} for i in range(NSHARD)]
+    return [{"name": "s%d" % i, "i": i, "c": 10 if q else 1200, "l": 60 if q else 10000} for i in range(NSHARD)]
 
 
 def close(got, exact):
